@@ -1,5 +1,8 @@
 use std::any::Any;
 use std::fmt;
+#[cfg(may_verif)]
+use crate::verif::atomic::{AtomicBool, Ordering};
+#[cfg(not(may_verif))]
 use std::sync::atomic::{AtomicBool, Ordering};
 use std::sync::Arc;
 use std::thread::Result;
